@@ -8,7 +8,7 @@ BOUNDS = {
              "incoming two-component composition (one shared, one new component), transfer between two labware / within one labware / within one "
              "well (k=1, <=2 split steps; k=2 without splitting), distribute to 1-2 wells, aspirate; volumes >= 0 symbolic (the zero-volume classes are "
              "decided by the solver); both devices; plate 2x2 / trough 2x2; plus the constructors with symbolic initial volumes (one-hot initial state, naming)",
-    "thorough": "k=1 with <=2 split steps on every labware pair, k=2 (4 candidate wells per slot, no splitting) on every labware pair and both devices",
+    "thorough": "k=1 with <=2 split steps on every labware pair, k=2 (2 candidate wells per slot, no splitting) on every labware pair and both devices",
 }
 OUTSIDE = ">3 components, >2 operations in sequence (covered inductively), float rounding (exact real arithmetic; division by a possibly-zero numpy scalar is reported as a non-finite outcome)"
 ASSUMPTIONS = ["representation invariant of the pre-state: fractions in [0,1]; they sum to 1 in wells that hold or ever held liquid and to 0 in never-filled wells (volume 0)",
@@ -29,7 +29,7 @@ def shards(tier):
                             ncand=2 if tier == "quick" else 4, wl_max="sym" if split else common.BIG * 2))
             if (dev == "evo" and (sg, dg, same) == ("t2x2", "t2x2", True)) or tier == "thorough":
                 # k=2 with composition tracking and splitting did not finish within 50 min per shard: no splitting for k=2
-                out.append(dict(op="transfer", dev=dev, sgeo=sg, dgeo=dg, same=same, k=2, steps=1, partition_by="auto", washes=[1], ncand=2 if tier == "quick" else 4,
+                out.append(dict(op="transfer", dev=dev, sgeo=sg, dgeo=dg, same=same, k=2, steps=1, partition_by="auto", washes=[1], ncand=2,
                                 wl_max=common.BIG * 2))
         # chained: a well that is first a destination and then a source within one call
         out.append(dict(op="transfer", dev=dev, sgeo="p3x2", dgeo="p3x2", same=True, k=2, steps=1, partition_by="auto", washes=[1], cands=[[0, 1], [1, 2]], wl_max=common.BIG * 2))
